@@ -1,7 +1,7 @@
 package main
 
 // Generator "Constructors": field.go array.go error.go exp/zapfield/zapfield.go
-//   -> Gen/Constructors.v   (ctors : list ctor, wrappers : list (string * loop))
+//   -> Gen/Constructors.v   (ctors : list ctor, wrappers : list (name * loop))
 //   -> harness/gen_c03_registry.go (constructor name -> the real function, generics instantiated)
 //
 // Source shapes recognised (anything else is an error):
@@ -522,7 +522,7 @@ func genC03Constructors(repo, out, harness string) error {
 		wq = append(wq, q)
 	}
 	sort.Strings(wq)
-	b.WriteString("Definition wrappers : list (string * loop) := [\n")
+	b.WriteString("Definition wrappers : list (name * loop) := [\n")
 	for i, q := range wq {
 		l, err := c.wrapper(q)
 		if err != nil {
@@ -546,7 +546,7 @@ func genC03Constructors(repo, out, harness string) error {
 func c03WriteRegistry(s *c03Src, ctors []*c03Ctor, harness string) error {
 	var b strings.Builder
 	b.WriteString("// Code generated by gen/c03_ctors.go from field.go array.go error.go exp/zapfield/zapfield.go; DO NOT EDIT.\n\n")
-	b.WriteString("package main\n\nimport (\n\t\"go.uber.org/zap\"\n\t\"go.uber.org/zap/exp/zapfield\"\n)\n\n")
+	b.WriteString("package main\n\nimport (\n\t\"fmt\"\n\n\t\"go.uber.org/zap\"\n\t\"go.uber.org/zap/exp/zapfield\"\n\t\"go.uber.org/zap/zapcore\"\n)\n\nvar _ fmt.Stringer\nvar _ zapcore.ObjectMarshaler\n\n")
 	b.WriteString("type genC03Ctor struct {\n\tName     string\n\tFn       interface{}\n\tHasKey   bool\n\tHasVal   bool\n\tVariadic bool\n\tGoParam  string\n}\n\n")
 	b.WriteString("var genC03Ctors = []genC03Ctor{\n")
 	for _, ct := range ctors {
@@ -564,9 +564,9 @@ func c03WriteRegistry(s *c03Src, ctors []*c03Ctor, harness string) error {
 					cs := s.src(f.Type)
 					switch {
 					case cs == "zapcore.ObjectMarshaler":
-						args = append(args, "c03ObjM")
+						args = append(args, "zapcore.ObjectMarshaler")
 					case cs == "fmt.Stringer":
-						args = append(args, "c03Stringer")
+						args = append(args, "fmt.Stringer")
 					case cs == "any":
 						args = append(args, "c03AddrObj")
 					case strings.HasPrefix(cs, "ObjectMarshalerPtr["):
